@@ -46,7 +46,8 @@ def do_call(emd, variant, v, out, x):
         np.random.seed(7)
     else:
         kw.update(max_imfs=2)
-    arg = x
+    # the signal is presented as (n,), (n,1) or (n,1,1) in turn: all accepted layouts, identical results
+    arg = (x, x[:, None], x[:, None, None])[(v // 10 + len(variant)) % 3]
     if out == 'raises':
         if variant == 'sift' and (v or 0) % 20 == 10:
             kw['imf_opts'] = {'max_iters': 1, 'sd_thresh': 1e-12}      # documented convergence error inside the call
